@@ -361,6 +361,14 @@ def run(tier):
     rep.extra["numeric_casts_in_resolver"] = ncast
     rep.extra["resolver_functions"] = len(reach)
     rep.floor("functions reachable from the resolver", len(reach), 4)
+    # a scalar's tag is what the resolver is given: `!!int` means the core schema only while '!!' is bound to tag:yaml.org,2002: in the document at hand - the handle table is written by the directive handler only and cleared with its document (C16's rules, run here as a premise)
+    if os.environ.get("VERIF_NO_PREMISE") != "1":
+        from . import C16 as _C16
+        _sub = _C16.run("quick")
+        _prem = [v for v in _sub.violations if v["rule"] in ('tags-writer', 'tags-reset-at-document-end', 'default-secondary-handle', 'lookup-in-directives', 'constant-handle-lookup', 'duplicate-handle-err')]
+        rep.check(not _prem, "tag-handle-table-premise", "Parser.tags", "the table of tag handles no longer provably belongs to one document (%s): a tag can resolve through a "
+                  "declaration of another document, or an undeclared handle be accepted" % "; ".join(sorted({"%s %s" % (v["rule"], v["key"].split(":", 1)[-1][:50]) for v in _prem})[:3]),
+                  detail={"violations_of_C16": len(_prem)})
     return rep
 
 
